@@ -18,63 +18,63 @@ var commonAssumptions = []string{
 
 var propMeta = map[string]PropMeta{
 	"C02": {
-		NotCovered: "encode(decode) agreement is proved on the decode side only, against the stated shape of what encoding/json produces from the struct tags; images/audio with an empty data or mime type are still rejected by the decoders (the contracts require non-empty ones); PromptMessage.UnmarshalJSON, the list/descriptor decoders (plain encoding/json) and annotations are not under contract; equality of item contents inside parseCallToolResult is per-kind (each parseContent call), not one quantified statement over the array.",
+		NotCovered:  "encode(decode) agreement is proved on the decode side only, against the stated shape of what encoding/json produces from the struct tags; images/audio with an empty data or mime type are still rejected by the decoders (the contracts require non-empty ones); PromptMessage.UnmarshalJSON, the list/descriptor decoders (plain encoding/json) and annotations are not under contract; equality of item contents inside parseCallToolResult is per-kind (each parseContent call), not one quantified statement over the array.",
 		Assumptions: append([]string{"encoding/json marshals TextContent/ImageContent/AudioContent/EmbeddedResource/TextResourceContents/BlobResourceContents to objects with exactly the members named by their struct tags, and json.Unmarshal into map[string]any gives those members back as string/bool/[]any/map values", "sseutil.WriteEvent's data-line splitting and the clients' line readers are inverse for JSON text (which contains no raw line breaks)"}, commonAssumptions...),
 	},
 	"C01": {
-		NotCovered: "Concurrency of several calls in flight is covered only through the per-function contracts (each call's entry in a pending table is its own key; lock discipline under C20/C07); that no frame is dropped when the legacy SSE event queue is full is not proved (the code drops it and the call then ends with its context); string ids are compared by their text.",
+		NotCovered:  "Concurrency of several calls in flight is covered only through the per-function contracts (each call's entry in a pending table is its own key; lock discipline under C20/C07); that no frame is dropped when the legacy SSE event queue is full is not proved (the code drops it and the call then ends with its context); string ids are compared by their text.",
 		Assumptions: append([]string{"IEEE 754: float64(n) is exact and truncates back to n for |n| <= 2^53", "fmt.Sprintf(\"%v\", n) of an int64 prints strconv.FormatInt(n, 10); math.Trunc/math.Abs as specified in std.spec", "the stdio client transport returns a non-nil raw message when it returns no error (trusted contract)"}, commonAssumptions...),
 	},
 	"C05": {
-		NotCovered: "What a successful write to the stream means below sseutil.WriteEvent (net/http buffering, the peer actually reading it); ordering between concurrent senders beyond the per-stream write lock (C09); the legacy SSE server's notification queue and the stdio server (single session) are not under contract for routing; that the filter callback is side-effect free is assumed.",
+		NotCovered:  "What a successful write to the stream means below sseutil.WriteEvent (net/http buffering, the peer actually reading it); ordering between concurrent senders beyond the per-stream write lock (C09); the legacy SSE server's notification queue and the stdio server (single session) are not under contract for routing; that the filter callback is side-effect free is assumed.",
 		Assumptions: append([]string{"ghost instrumentation: sendattempts counts calls of httpServerHandler.sendNotification, sendoks those that returned nil; filtercalls/selected count the filter callback's calls and true results", "pendingRequestKey is injective in the session id as long as session ids contain no NUL byte (they are UUID strings)", "session.GetID() is stable for a session"}, commonAssumptions...),
 	},
 	"C10": {
-		NotCovered: "Pairwise distinctness over a whole stream is concluded outside the verifier from the proved per-call facts (one generator per stream, fresh id per event, strictly increasing private counter, id text determines the counter); the GET stream's single generator is by construction (one responder per connection) and not under contract. NotificationParams.MarshalJSON/UnmarshalJSON and encoding/json are not under contract, so 'parameters intact' is proved up to the value handed to json.Marshal and from the value json.Unmarshal produced. uint64 counter wrap-around is ignored.",
+		NotCovered:  "Pairwise distinctness over a whole stream is concluded outside the verifier from the proved per-call facts (one generator per stream, fresh id per event, strictly increasing private counter, id text determines the counter); the GET stream's single generator is by construction (one responder per connection) and not under contract. NotificationParams.MarshalJSON/UnmarshalJSON and encoding/json are not under contract, so 'parameters intact' is proved up to the value handed to json.Marshal and from the value json.Unmarshal produced. uint64 counter wrap-around is ignored.",
 		Assumptions: append([]string{"fmt.Sprintf(\"evt-%d-%d\", ts, n) prints n after the last '-' (idctr)", "the notification handler callback is counted once per invocation (ghost instrumentation) and (*bufio.Reader).ReadString delivers the stream's lines in order"}, commonAssumptions...),
 	},
 	"C08": {
-		NotCovered: "Wall-clock promptness, goroutine / file-descriptor / child-process counts, kill -9 and truncation at byte offsets are not expressible as contracts on these functions; the stdio reader's blocking Decode is ended by the pipe closing (os/exec, assumed). The emptying loop of the stdio close() (range-delete) is not proved to leave the table empty. That a stdio call which returns no error returns a non-nil result depends on what the reader sends on the channel (not under contract).",
+		NotCovered:  "Wall-clock promptness, goroutine / file-descriptor / child-process counts, kill -9 and truncation at byte offsets are not expressible as contracts on these functions; the stdio reader's blocking Decode is ended by the pipe closing (os/exec, assumed). The emptying loop of the stdio close() (range-delete) is not proved to leave the table empty. That a stdio call which returns no error returns a non-nil result depends on what the reader sends on the channel (not under contract).",
 		Assumptions: append([]string{"net/http aborts an exchange and every read of its response body when the context the request was built with ends", "a context.CancelFunc ends its context; the stored body-close function of the SSE stream only closes that body", "(*exec.Cmd).Wait returns when the child has exited, however it exited", "cancellability obligations are structural (goal true/false from the select's cases), not semantic"}, commonAssumptions...),
 	},
 	"C14": {
-		NotCovered: "Equality of the JSON-RPC results themselves is reduced to 'the same manager entry point is invoked with the same request and its result is wrapped the same way'; order of listed items and error wording are outside the property; the stdio client's re-marshalling of results is encoding/json's behaviour.",
+		NotCovered:  "Equality of the JSON-RPC results themselves is reduced to 'the same manager entry point is invoked with the same request and its result is wrapped the same way'; order of listed items and error wording are outside the property; the stdio client's re-marshalling of results is encoding/json's behaviour.",
 		Assumptions: append([]string{"a transport returns a non-nil raw message when it returns no error (checked for the concrete transports under C08)"}, commonAssumptions...),
 	},
 	"C13": {
-		NotCovered: "The legacy SSE server's handleMessage/handleSSE and the prompt/resource list filters follow the same pattern and are not yet under contract; what user-supplied context functions, filters and handlers do with the context; true concurrency (the frame argument: request paths cannot write configuration fields, so nothing request-derived can be parked where another request reads it).",
+		NotCovered:  "The legacy SSE server's handleSSE (the context of the event stream itself) and the notification path behind handleNotificationMessage's goroutine are not under contract; what user-supplied context functions, filters and handlers do with the context; true concurrency (the frame argument: request paths cannot write configuration fields, so nothing request-derived can be parked where another request reads it).",
 		Assumptions: append([]string{"context.WithValue/WithCancel/WithTimeout and internal/context.WithoutCancel derive a context whose Value agrees with the parent except for the added key", "HTTP context functions are deterministic functions of (context, request)"}, commonAssumptions...),
 	},
 	"C19": {
-		NotCovered: "Multi-valued static headers are covered per key (the outer loop visits every key), not per value; the before-request function may itself modify the request; answers to server-issued requests are sent with a fresh 30 s context, not with the handshake's context values (the property asks for the handshake's values for background streams: not decided, see DESIGN.md).",
+		NotCovered:  "Multi-valued static headers are covered per key (the outer loop visits every key), not per value; the before-request function may itself modify the request; answers to server-issued requests are sent with a fresh 30 s context, not with the handshake's context values (the property asks for the handshake's values for background streams: not decided, see DESIGN.md).",
 		Assumptions: append([]string{"http.NewRequestWithContext returns a request for the given URL with a non-nil URL and header; the user's HTTPBeforeRequestFunc is counted once per invocation (ghost instrumentation)", "transport configuration fields are written only by the constructors and option functions listed as init"}, commonAssumptions...),
 	},
 	"C03": {
-		NotCovered: "The MCP schema of result payloads beyond the envelope and 'list results are arrays'; parameter-shape contracts for prompts/get, resources/read, subscribe, completion (same pattern as tools/call, not yet written); the legacy SSE and stdio wrappers' envelopes; that a 2xx body is non-empty (only the status is modelled).",
+		NotCovered:  "The MCP schema of result payloads beyond the envelope and 'list results are arrays'; the stdio wrapper's envelopes; that a 2xx body is non-empty (only the status is modelled); the 404 of the legacy SSE server for a path that is neither endpoint (path normalisation is string surgery outside the contracts).",
 		Assumptions: append([]string{"net/http: the first WriteHeader/http.Error fixes the status, a Write without it sends 200; user handlers and middlewares return either a message or an error"}, commonAssumptions...),
 	},
 	"C04": {
-		NotCovered: "Uniqueness and entropy of issued ids (crypto/rand and hex encoding are library facts), the one-minute expiry sweep, sessions racing on one id, and 'the answer to a request does not depend on earlier requests' in stateless mode beyond 'no id issued or required'.",
+		NotCovered:  "Uniqueness and entropy of issued ids (crypto/rand and hex encoding are library facts), the one-minute expiry sweep, sessions racing on one id, and 'the answer to a request does not depend on earlier requests' in stateless mode beyond 'no id issued or required'.",
 		Assumptions: append([]string{"the sessionManager interface satisfies its contract (getSession: membership, createSession: adds exactly one fresh id, terminateSession: removes exactly that id); it is checked separately for internal/session where in reach"}, commonAssumptions...),
 	},
 	"C11": {
-		NotCovered: "Interleavings of concurrent sends with the registration beyond the lock discipline; that the client really receives the events (C09/C05).",
+		NotCovered:  "Interleavings of concurrent sends with the registration beyond the lock discipline; that the client really receives the events (C09/C05).",
 		Assumptions: append([]string{"at each acquisition of getSSEConnectionsLock the table is arbitrary; postconditions are relative to that state (atlock)"}, commonAssumptions...),
 	},
 	"C09": {
-		NotCovered: "Systematic exploration of interleavings and pipe-buffer boundaries; the shape of a frame for every payload (it rests on json.Marshal emitting no raw newline); the POST-SSE response stream, whose writer is confined to the request's goroutine.",
+		NotCovered:  "Systematic exploration of interleavings and pipe-buffer boundaries; the shape of a frame for every payload (it rests on json.Marshal emitting no raw newline); the POST-SSE response stream, whose writer is confined to the request's goroutine.",
 		Assumptions: append([]string{"holding the stream's lock during all writes of a frame is sufficient for frames not to interleave; json.Marshal output contains no raw LF/CR"}, commonAssumptions...),
 	},
 	"C12": {
-		NotCovered: "Linearizability against a set model under real schedules (the lock discipline plus one critical section per operation is the sufficient condition that is proved); the in-place splice of toolsOrder in unregisterTools; registration order of resources beyond the order slice holding only registered uris.",
+		NotCovered:  "Linearizability against a set model under real schedules (the lock discipline plus one critical section per operation is the sufficient condition that is proved); the in-place splice of toolsOrder in unregisterTools; registration order of resources beyond the order slice holding only registered uris.",
 		Assumptions: append([]string{"at every lock acquisition the guarded fields and the contents of guarded maps are arbitrary (other goroutines may have run); postconditions are stated relative to that state (atlock)"}, commonAssumptions...),
 	},
 	"C20": {
-		NotCovered: "Fields handed between goroutines by channel operations or before a goroutine is started are not declared (trusted happens-before); races inside dependencies; the Go memory model itself. A discipline is a sufficient condition: a field may be race-free for reasons the declarations do not capture.",
+		NotCovered:  "Fields handed between goroutines by channel operations or before a goroutine is started are not declared (trusted happens-before); races inside dependencies; the Go memory model itself. A discipline is a sufficient condition: a field may be race-free for reasons the declarations do not capture.",
 		Assumptions: append([]string{"constructors and the listed construction-time option functions run before the object is shared"}, commonAssumptions...),
 	},
 	"C06": {
-		NotCovered: "Deadlock between goroutines, goroutine-per-request leaks, 'keeps serving other clients', resource exhaustion by huge or deeply nested values (encoding/json's behaviour) and the HTTP status/JSON-RPC error answers (C03) are not decided. Dereferences of parameters and fields of unknown nil-ness are not obligations. Functions with a deferred recover() are exempt from the panic obligations (the panic does not crash the server).",
+		NotCovered: "Deadlock between goroutines, goroutine-per-request leaks, 'keeps serving other clients', resource exhaustion by huge or deeply nested values (encoding/json's behaviour) and the HTTP status/JSON-RPC error answers (C03) are not decided. Dereferences of parameters and fields of unknown nil-ness are not obligations (only the pointer result of a call that also returns an error is). Functions with a deferred recover() are exempt from the panic obligations (the panic does not crash the server).",
 		Assumptions: append([]string{
 			"objects are created by their constructors: the type invariants (maps non-nil) are assumed at every function entry and checked for the functions that write the fields; callees preserve the invariants of the objects they are handed",
 			"callbacks and code outside the module do not close channels private to the module's types and do not change lock state of this goroutine",
@@ -89,7 +89,7 @@ var propMeta = map[string]PropMeta{
 		}, commonAssumptions...),
 	},
 	"C15": {
-		NotCovered: "What a user middleware does (calling next twice, not at all) is its own business: the contract fixes what the library builds and how often it invokes it. The mapping of a middleware error to a JSON-RPC internal error in each transport wrapper, and the order in which WithMiddleware/WithSSEMiddleware options reach the handler, are not covered yet.",
+		NotCovered: "What a user middleware does (calling next twice, not at all) is its own business: the contract fixes what the library builds and how often it invokes it. The mapping of a middleware error to a JSON-RPC internal error is covered for the Streamable and legacy SSE wrappers (C14 clauses); that Server.initComponents replays the pending WithMiddleware list in order through use() is by inspection (its loop is not under contract), WithMiddleware/WithSSEMiddleware themselves are proved to accumulate in option order.",
 		Assumptions: append([]string{
 			"applying a middleware to a handler is a deterministic, side-effect free construction (callspec Middleware: function)",
 		}, commonAssumptions...),
